@@ -132,4 +132,112 @@ theorem arrow_right_tableEq {ks : List Col} (hks : ks ≠ []) {ls rs : List Col}
     rw [coalesced_self] at h2
     exact h1.trans h2.symm
 
+/-! ### the spec's union really is the duplicate-free concatenation -/
+
+theorem dedupAux_sound (S : List Row) (T : Table) :
+    (∀ y ∈ dedupAux S T, ∀ s ∈ S, ¬ RowEq s y) ∧ (dedupAux S T).Pairwise (fun a b => ¬ RowEq a b) := by
+  induction T generalizing S with
+  | nil => simp [dedupAux]
+  | cons x T ih =>
+    cases h : S.any (fun s => rowBEq s x) with
+    | true => rw [dedupAux_cons_seen h]; exact ih S
+    | false =>
+      rw [dedupAux_cons_new h]
+      obtain ⟨i1, i2⟩ := ih (x :: S)
+      have hx : ∀ s ∈ S, ¬ RowEq s x := by
+        intro s hs hre
+        have : S.any (fun s => rowBEq s x) = true := List.any_eq_true.mpr ⟨s, hs, rowBEq_iff.mpr hre⟩
+        rw [h] at this; exact Bool.false_ne_true this
+      refine ⟨?_, ?_⟩
+      · intro y hy s hs
+        rcases List.mem_cons.mp hy with rfl | hy
+        · exact hx s hs
+        · exact i1 y hy s (List.mem_cons_of_mem _ hs)
+      · rw [List.pairwise_cons]
+        exact ⟨fun y hy => i1 y hy x List.mem_cons_self, i2⟩
+
+theorem dedupAux_complete (S : List Row) (T : Table) :
+    ∀ x ∈ T, (∃ s ∈ S, RowEq s x) ∨ (∃ y ∈ dedupAux S T, RowEq y x) := by
+  induction T generalizing S with
+  | nil => intro x hx; simp at hx
+  | cons a T ih =>
+    intro x hx
+    cases h : S.any (fun s => rowBEq s a) with
+    | true =>
+      rw [dedupAux_cons_seen h]
+      rcases List.mem_cons.mp hx with rfl | hx
+      · obtain ⟨s, hs, hb⟩ := List.any_eq_true.mp h
+        exact Or.inl ⟨s, hs, rowBEq_iff.mp hb⟩
+      · exact ih S x hx
+    | false =>
+      rw [dedupAux_cons_new h]
+      rcases List.mem_cons.mp hx with rfl | hx
+      · exact Or.inr ⟨x, List.mem_cons_self, RowEq.refl x⟩
+      · rcases ih (a :: S) x hx with ⟨s, hs, hre⟩ | ⟨y, hy, hre⟩
+        · rcases List.mem_cons.mp hs with rfl | hs
+          · exact Or.inr ⟨s, List.mem_cons_self, hre⟩
+          · exact Or.inl ⟨s, hs, hre⟩
+        · exact Or.inr ⟨y, List.mem_cons_of_mem _ hy, hre⟩
+
+theorem union_spec (L R : Table) :
+    (Rel.union L R).Pairwise (fun a b => ¬ RowEq a b) ∧ (∀ y ∈ Rel.union L R, y ∈ L ++ R) ∧
+      (∀ x ∈ L ++ R, ∃ y ∈ Rel.union L R, RowEq y x) := by
+  unfold Rel.union dedup
+  refine ⟨(dedupAux_sound [] (L ++ R)).2, fun y hy => mem_dedupAux hy, fun x hx => ?_⟩
+  rcases dedupAux_complete [] (L ++ R) x hx with ⟨s, hs, _⟩ | h
+  · simp at hs
+  · exact h
+
+/-! ### pyarrow, equally named keys: full outer join -/
+
+theorem cell_zip_keyOf (ks : List Col) (r : Row) (c : Col) :
+    cell (ks.zip (keyOf ks r)) c = if c ∈ ks then cell r c else none := by
+  unfold keyOf
+  induction ks with
+  | nil => simp [cell]
+  | cons k ks ih =>
+    simp only [List.map_cons, List.zip_cons_cons, cell]
+    by_cases h : k = c
+    · subst h; simp
+    · have h' : ¬ c = k := fun hh => h hh.symm
+      simp [h, h', ih]
+
+theorem rcols_zip_keyOf (ks : List Col) (r : Row) : rcols (ks.zip (keyOf ks r)) = ks := by
+  unfold keyOf rcols
+  induction ks with
+  | nil => rfl
+  | cons k ks ih => simp only [List.map_cons, List.zip_cons_cons, List.cons.injEq, true_and]; exact ih
+
+theorem rowEq_arrow_outer_right_only {ks : List Col} (hks : ks.Nodup) (ls : List Col) {r : Row} (hr : (rcols r).Nodup) :
+    RowEq (ks.zip (keyOf ks r) ++ nulls (ls.filter (fun c => decide (c ∉ ks))) ++ ArrowSem.dropCols ks r)
+      (padLeft ks ls r) := by
+  have hkeys : RowEq (ks.zip (keyOf ks r)) (r.filter (fun e => decide (e.1 ∈ ks))) := by
+    refine rowEq_of_cell_eq ?_ ?_ ?_
+    · rw [rcols_zip_keyOf]; exact hks
+    · rw [rcols_filter (fun c => decide (c ∈ ks))]; exact hr.sublist List.filter_sublist
+    · intro c
+      rw [cell_zip_keyOf, cell_filter (fun c => decide (c ∈ ks))]
+      by_cases h : c ∈ ks <;> simp [h]
+  unfold RowEq at hkeys ⊢
+  unfold padLeft ArrowSem.dropCols
+  simp only [core_append, core_nulls, List.append_nil, List.nil_append]
+  have hsplit : (core r).Perm (core (r.filter (fun e => decide (e.1 ∈ ks))) ++ core (r.filter (fun e => decide (e.1 ∉ ks)))) := by
+    rw [← core_append]
+    refine List.Perm.filter _ ?_
+    have := (List.filter_append_perm (fun e : Col × Cell => decide (e.1 ∈ ks)) r).symm
+    have hn : (fun e : Col × Cell => !decide (e.1 ∈ ks)) = (fun e => decide (e.1 ∉ ks)) := by funext e; simp
+    rw [hn] at this
+    exact this
+  exact (List.Perm.append_right _ hkeys).trans hsplit.symm
+
+theorem arrow_outer_tableEq {ks : List Col} (hks : ks ≠ []) (hnd : ks.Nodup) {ls rs : List Col}
+    (hkl : ∀ c ∈ ks, c ∈ ls) (hkr : ∀ c ∈ ks, c ∈ rs) {L R : Table} (wfR : RowsWF R) :
+    ∃ out, ArrowMerge.merge .outer ks ks ls rs L R = .ok out ∧ TableEq out (joinSpec .outer ks ks ls rs L R) := by
+  refine ⟨_, arrow_joinLogic_same_keys .outer hks hkl hkr L R, ?_⟩
+  unfold ArrowSem.tableJoin joinGen joinSpec outerJoin leftJoin combine padRight ArrowSem.dropCols
+  simp only [coalesced_self]
+  refine TableEq.append (TableEq.refl _) ?_
+  refine TableEq.map_congr _ _ _ (fun r hr => ?_)
+  exact rowEq_arrow_outer_right_only hnd ls (wfR r (List.mem_filter.mp hr).1)
+
 end Rel
